@@ -2,7 +2,7 @@ import GuppyVerif.Model.Places
 import GuppyVerif.Util.Sexp
 /-! Line-protocol driver for C07 (one S-expression per line).
 
-  ty    = q | (tup ty…) | (arr ty)
+  ty    = q | c | (tup ty…) | (arr ty)      q = linear leaf, c = copyable leaf
   path  = (path (((p…) i) …) (t…))        chunks `.p…[i]`, then the tail projections
   val   = (l n) | h | (t val…) | (a val…)   leaf / hole / tuple-or-struct / array
   (emit ty path callee)       -> wire-level emission, printed as (prog nin ((name (params) (args) nout) …) (outs))
@@ -11,6 +11,7 @@ import GuppyVerif.Util.Sexp
   (lens path val)             -> putP π (f (getP π val)) val    (the specification)
   (sig ((name borrowed)…) (result…))  -> hugrOutputs and the port assignment of _update_inout_ports
   (wt ty path)                -> `ok` iff the path is well typed under the root type (hypothesis WT of wire_writeback)
+  (emitset ty path) | (runaset path val val2)  -> `x…[i] = v` for a copyable element (classical set)
   (emitassign ty path) | (runw2 prog val (i…) val2) | (runa2 path val val2) | (lens2 path val val2)
                               -> the same for the assignment `π = v` (new value val2 is the last input)
  The callee adds 1000 to every leaf of its argument.  replies: `ok …` | `err <name>` | `bad-request`. -/
@@ -18,6 +19,7 @@ open GuppyVerif GuppyVerif.Places
 
 partial def parseTy : Sexp → Option Ty
   | .atom "q" => some .q
+  | .atom "c" => some .c
   | .list (.atom "tup" :: ts) => do some (.tup (← ts.mapM parseTy))
   | .list [.atom "arr", t] => do some (.arr (← parseTy t))
   | _ => none
@@ -58,6 +60,8 @@ def showOp : Op → String × List String
   | .ret => ("return", [])
   | .call n => ("call", [n])
   | .drop => ("drop", [])
+  | .set => ("set", [])
+  | .unwrap => ("unwrap", ["1", "Array%20index%20out%20of%20bounds"])
   | .other n => (n, [])
 
 def showProg (p : Prog) : String :=
@@ -75,6 +79,8 @@ def parseOp (name : String) (ps : List String) : Op :=
   | "return", [] => .ret
   | "call", [n] => .call n
   | "drop", [] => .drop
+  | "set", [] => .set
+  | "unwrap", ["1", "Array%20index%20out%20of%20bounds"] => .unwrap
   | _, _ => .other name
 
 def parseInstr : Sexp → Option Instr
@@ -97,6 +103,7 @@ def showW : W → String
   | .val v => showV v
   | .int i => s!"(int {i})"
   | .usize n => s!"(usize {n})"
+  | .either r e a => s!"(either {r} {showV e} {showV a})"
 
 def parseParam : Sexp → Option Param
   | .list [.atom n, .atom b] => do some ⟨← n.toNat?, b == "1", false⟩
@@ -111,6 +118,13 @@ def handleSexp : Sexp → Option String
     let is ← Sexp.natList? is
     match runW bump pr (.val v :: is.map .int) with
     | .ok ws => some ("ok " ++ " ".intercalate (ws.map showW))
+    | .error e => some (showErr e)
+  | .list [.atom "emitset", t, p] => do
+    some (showProg (emitAssignSetW (← parseTy t) (← parsePath p)))
+  | .list [.atom "runaset", p, v, v2] => do
+    let v2 ← parseV v2
+    match assignSetA id (← parsePath p) (← parseV v) v2 with
+    | .ok r => some ("ok " ++ showV r)
     | .error e => some (showErr e)
   | .list [.atom "wt", t, p] => do
     let p ← parsePath p
